@@ -190,7 +190,8 @@ def run(prog, ctx):
                 n_p += 1
                 res.obligations += 1
                 stores = [(bb, s3.rvalue(rv)) for (ff, bb, kind, place, rv, span, adt, fld) in sym.field_stores(prog, adt=F, field="offset", fns=[f]) if rv is not None]
-                if any(C.is_bin(e, "Add") and "purge(" in show(e) and "self.offset" in show(e) for _, e in stores):
+                if any(C.is_bin(e, "Add") and "self.offset" in show(e) and ("purge(" in show(e) or sym.contains(
+                        e, lambda t: t[0] == "call" and t[2] and isinstance(t[2][0], tuple) and "hash_map" in show(t[2][0]))) for _, e in stores):
                     res.discharged += 1
                 elif site.get("dest") is not None and not isinstance(site["dest"], int):
                     res.undecided += 1
